@@ -207,6 +207,11 @@ var fileTypeFLDR = [4]byte{0x66, 0x6c, 0x64, 0x72}
 // isFileRoot reports whether fullPath addresses the client's file root itself.  The fork side-files of an entry
 // (.info_<name>, .rsrc_<name>, <name>.incomplete) live next to it; for the root that is outside the root, so requests
 // that read or write an entry's forks must not be aimed at the root.
+// reservedNameMsg is the refusal for a name the server uses for a file's fork side files or its partial upload.
+func reservedNameMsg(name []byte) string {
+	return fmt.Sprintf("The name \"%s\" cannot be used: names that start with .info_ or .rsrc_ or end with .incomplete are used by the server.", name)
+}
+
 func isFileRoot(cc *hotline.ClientConn, fullPath string) bool {
 	return filepath.Clean(fullPath) == filepath.Clean(cc.FileRoot())
 }
@@ -299,6 +304,10 @@ func HandleSetFileInfo(cc *hotline.ClientConn, t *hotline.Transaction) (res []ho
 			if !cc.Authorize(hotline.AccessRenameFile) {
 				return cc.NewErrReply(t, "You are not allowed to rename files.")
 			}
+		}
+
+		if hotline.ReservedFileName(string(t.GetField(hotline.FieldFileNewName).Data)) {
+			return cc.NewErrReply(t, reservedNameMsg(t.GetField(hotline.FieldFileNewName).Data))
 		}
 
 		// The same goes for a new name that is taken.
@@ -494,6 +503,10 @@ func HandleNewFolder(cc *hotline.ClientConn, t *hotline.Transaction) (res []hotl
 		return cc.NewErrReply(t, "You are not allowed to create folders.")
 	}
 	folderName := string(t.GetField(hotline.FieldFileName).Data)
+
+	if hotline.ReservedFileName(folderName) {
+		return cc.NewErrReply(t, reservedNameMsg([]byte(folderName)))
+	}
 
 	folderName = path.Join("/", folderName)
 
@@ -1593,6 +1606,10 @@ func HandleUploadFolder(cc *hotline.ClientConn, t *hotline.Transaction) (res []h
 		}
 	}
 
+	if hotline.ReservedFileName(string(t.GetField(hotline.FieldFileName).Data)) {
+		return cc.NewErrReply(t, reservedNameMsg(t.GetField(hotline.FieldFileName).Data))
+	}
+
 	fileTransfer := cc.NewFileTransfer(hotline.FolderUpload,
 		cc.FileRoot(),
 		t.GetField(hotline.FieldFileName).Data,
@@ -1620,6 +1637,10 @@ func HandleUploadFile(cc *hotline.ClientConn, t *hotline.Transaction) (res []hot
 	fileName := t.GetField(hotline.FieldFileName).Data
 	filePath := t.GetField(hotline.FieldFilePath).Data
 	transferOptions := t.GetField(hotline.FieldFileTransferOptions).Data
+
+	if hotline.ReservedFileName(string(fileName)) {
+		return cc.NewErrReply(t, reservedNameMsg(fileName))
+	}
 	transferSize := t.GetField(hotline.FieldTransferSize).Data // not sent for resume
 
 	var fp hotline.FilePath
